@@ -31,6 +31,7 @@ THEOREMS = [
     "Optyx.Props.C07.getitem_matrix",
     "Optyx.Props.C07.getitem_transpose",
     "Optyx.Props.C07.getitem_symmetric",
+    "Optyx.Props.Glue.lpGlue_text",
 ]
 ASSUMPTIONS = [
     "solver contract (explicit hypotheses of the theorems): minimize returns fun = f'(x) for the objective it was "
